@@ -669,9 +669,19 @@ def real_subst_sites(sites, subs, refs, ns="urn:t"):
     classes = [target]
     for n in dict.fromkeys(list(refs) + list(heads) + list(heads.values())):
         classes.append(Class(qname=q(n), tag=Tag.ELEMENT, location="mem", namespace=ns, substitutions=[q(heads[n])] if n in heads else []))
+    # one handler for all the classes of a container: a class with the same attrs goes first, the result for
+    # `target` must not depend on it (the handler keeps the substitution map, the types keep a `substituted` flag)
+    decoy = build_class(sites)
+    decoy.qname = "decoy"
+    for a in decoy.attrs:
+        if a.name in refs:
+            a.types = [AttrType(qname=q(a.name))]
+    classes.append(decoy)
     container = ClassContainer(GeneratorConfig())
     container.extend(classes)
-    AddAttributeSubstitutions(container).process(target)
+    handler = AddAttributeSubstitutions(container)
+    handler.process(decoy)
+    handler.process(target)
     return [export_attr(a) for a in target.attrs]
 
 
@@ -727,7 +737,7 @@ def gen_ns_ctx(rng):
         default = NS_O
     if rng.random() < 0.6 or default == NS_O:
         prefixes["o"] = NS_O
-    chameleon = bool(tns) and rng.random() < 0.15
+    chameleon = bool(tns) and rng.random() < 0.25
     if chameleon and rng.random() < 0.7:
         prefixes.pop("t", None)
         default = None if default == tns else default
